@@ -300,6 +300,21 @@ func TestGvcReplay(t *testing.T) {
 	}
 }
 `}})
+	clauseScenarios = append(clauseScenarios,
+		clauseScenario{"v3.resolveMatrixRefs$1", "", scenario{pkgRel: "", what: "concurrent calls of a task whose for-matrix uses ref: write the resolved list into the shared task definition (data race reported by the Go race detector)",
+			src: `// gvc:race
+` + gvcHeader + `
+func TestGvcReplay(t *testing.T) {
+	dir := t.TempDir()
+	gvcWrite(t, dir, "Taskfile.yml", "version: '3'\nsilent: true\ntasks:\n  default:\n    deps:\n      - {task: build, vars: {LIST: [a, b]}}\n      - {task: build, vars: {LIST: [c, d]}}\n      - {task: build, vars: {LIST: [e, f]}}\n      - {task: build, vars: {LIST: [g, h]}}\n  build:\n    cmds:\n      - for: {matrix: {OS: {ref: .LIST}}}\n        cmd: echo {{.ITEM.OS}}\n")
+	for i := 0; i < 20; i++ {
+		var out bytes.Buffer
+		if err := gvcExec(t, dir, &out).Run(context.Background(), &task.Call{Task: "default"}); err != nil {
+			t.Fatalf("run: %v (%s)", err, out.String())
+		}
+	}
+}
+`}})
 	clauseScenarios = append(clauseScenarios, clauseScenario{"fingerprint.(*TimestampChecker).OnError", "stampPath", scenario{pkgRel: "", what: "method timestamp: a failed run leaves the stamp file, the next run reports the task up to date",
 		src: gvcHeader + `
 func TestGvcReplay(t *testing.T) {
